@@ -261,7 +261,8 @@ def cond_src(c):
 META_KEYS = ['key_transform_with_load', 'key_transform_with_dump', 'marshal_date_time_as', 'skip_defaults',
              'skip_if', 'skip_defaults_if', 'raise_on_unknown_json_key', 'tag_key', 'auto_assign_tags',
              'recursive_classes', 'tag', 'recursive',
-             'v1', 'v1_key_case', 'v1_on_unknown_key', 'v1_unsafe_parse_dataclass_in_union', 'v1_field_to_alias']
+             'v1', 'v1_key_case', 'v1_on_unknown_key', 'v1_unsafe_parse_dataclass_in_union', 'v1_field_to_alias',
+             'debug_enabled', 'v1_debug']
 
 
 def meta_items(meta):
@@ -290,6 +291,9 @@ def cls_src(t, defs):
     pyname = info.get('pyname') or info['name']
     # optional `inherits`: {'base': <class model>, 'n': k} — the class derives from that class (instead of the wizard base); `fields` / `ftys`
     # list ALL its fields (what an instance has, what the driver's flat class model sees), the first k of them are the inherited ones
+    if info.get('class_kw') and wizard is True:
+        # optional `class_kw`: keyword arguments of the class statement, e.g. {'debug': True} -> class X(JSONWizard, debug=True)
+        base = f'({q("JSONWizard")}, ' + ', '.join(f'{k}={v!r}' for k, v in info['class_kw'].items()) + ')'
     inh = info.get('inherits')
     own_fields = info['fields']
     # optional `mixins`: {'names': ['DumpMixin', 'LoadMixin'], 'pos': 'pre' | 'post'} — a wizard class that is its own dumper / loader:
